@@ -336,6 +336,14 @@ def e2_worker(item):
             acc.case(key=(repr(case), focus, tuple(exe.choices)), nontrivial=exe.max_inflight >= 2, outcome=h,
                      cls="schedule")
             if h != ref_hash:
+                # before trusting a failure: the same schedule must fail identically when executed again
+                exe2, out2, exc2 = sched.execute(body, list(exe.choices), focus, gran)
+                h2 = hash(out2) if exc2 is None else "EXC:" + exc_signature(exc2)
+                if h2 != h:
+                    acc.violation(Violation("harness-nondeterministic-schedule", f"schedule {exe.choices} of invocation {focus} gave two "
+                                            "different observations in two executions: uncontrolled nondeterminism in the harness",
+                                            {"focus": focus, "schedule": list(exe.choices)}))
+                    return
                 acc.violation(Violation(
                     "schedule-changes-result" if exc is None else "schedule-crash:" + exc_signature(exc),
                     f"pool invocation {focus}: schedule {exe.choices} ({exe.preemptions} preemption(s)) gives a result "
